@@ -211,21 +211,25 @@ def stripExpZeros : Nat → Str → Str
       | [] => [c]
     else c :: stripExpZeros fuel r
 
-/-- floatToString (value_string.go:15) for bitsize 64.  `lg` is the value `math.Log10(math.Abs(x))`
-    returned (math.Log10 is not modelled; the harness records it in the request). -/
-def floatToString (L : Lib) (x lg : FV) : Str :=
+/-- the float64 constants `1e21` (exactly 10^21) and `1e-6` (the double nearest to 10^-6) -/
+def f1e21 : FV := ofRatParts false (10 ^ 21) 1
+def f1em6 : FV := ofRatParts false 1 (10 ^ 6)
+
+/-- floatToString (value_string.go:15) for bitsize 64: exponential notation exactly for
+    |x| >= 1e21 and |x| < 1e-6 (exact float comparisons). -/
+def floatToString (L : Lib) (x : FV) : Str :=
   match x with
   | .nan => sNaN
   | .inf s => if s then sNegInfinity else sInfinity
   | .fin .. =>
-    if le (ofInt 21) lg ∨ lt lg (ofInt (-6)) then
+    if le f1e21 (abs x) ∨ lt (abs x) f1em6 then
       let s := formatFloat L x .g (-1)
       stripExpZeros s.length s
     else formatFloat L x .f (-1)
 
 /-- Value.string() for a float64-kinded number (value_string.go:95) -/
-def numToString (L : Lib) (x lg : FV) : Str :=
-  if isZero x then [48] else floatToString L x lg
+def numToString (L : Lib) (x : FV) : Str :=
+  if isZero x then [48] else floatToString L x
 
 /-- strconv.FormatInt(i, base) for 2 ≤ base ≤ 36 -/
 def radixDigitCh (d : Nat) : Nat := if d < 10 then 48 + d else 87 + d   -- '0'.. / 'a'..
@@ -260,88 +264,185 @@ deriving DecidableEq, Repr, Inhabited
 /-- Go `int(f)` on amd64 -/
 def goInt (f : FV) : Int := C05.goInt64 f
 
-/-- numberToStringRadix (value_string.go:33) -/
+/-- numberToStringRadix (value_string.go:33): the integer part, taken exactly
+    (`big.Float.SetFloat64(x).Int(nil).Text(radix)`); the fraction is dropped -/
 def numberToStringRadix (x : FV) (radix : Nat) : Str :=
   match x with
   | .nan => sNaN
   | .inf s => if s then sNegInfinity else sInfinity
-  | .fin _ m _ => if m = 0 then [48] else formatInt (goInt x) radix
+  | .fin _ m _ => if m = 0 then [48] else formatInt (truncInt x) radix
 
 /-- builtinNumberToString (builtin_number.go:29) with a float64 `this` -/
-def numberToString (L : Lib) (x lg : FV) (radixArg : Arg) : Res :=
+def numberToString (L : Lib) (x : FV) (radixArg : Arg) : Res :=
   match radixArg with
-  | .undef => .str (numToString L x lg)
+  | .undef => .str (numToString L x)
   | .num r =>
     let integer := toIntegerFloat r
     if lt integer (ofInt 2) ∨ lt (ofInt 36) integer then .rangeError
     else
       let radix := goInt integer
-      if radix = 10 then .str (numToString L x lg)
+      if radix = 10 then .str (numToString L x)
       else .str (numberToStringRadix x radix.toNat)
 
+/-- `if value == 0 { value = 0 }`: -0 is formatted like +0 -/
+def dropZeroSign (x : FV) : FV := if isZero x then zero else x
+
+/-- `big.Int.String()`: decimal digits, "0" for zero -/
+def bigIntString (n : Nat) : Str := if n = 0 then [48] else (natDigits n).map digitCh
+
+/-- the exact rounding of builtinNumberToFixed: floor(|x|·10^f + 1/2) with big.Rat, for |x| = num/den -/
+def fixedRound (num den f : Nat) : Nat := (2 * (num * 10 ^ f) + den) / (2 * den)
+
+/-- the layout of builtinNumberToFixed: pad to f+1 digits, insert the point -/
+def fixedLayout (digits : Str) (f : Nat) : Str :=
+  if f > 0 then
+    let digits := if digits.length ≤ f then List.replicate (f + 1 - digits.length) 48 ++ digits else digits
+    digits.take (digits.length - f) ++ 46 :: digits.drop (digits.length - f)
+  else digits
+
 /-- builtinNumberToFixed (builtin_number.go:51), after the range check -/
-def toFixedStr (L : Lib) (x lg : FV) (precision : FV) : Str :=
+def toFixedStr (L : Lib) (x : FV) (precision : FV) : Str :=
   if isNaN x then sNaN
-  else if le (ofRatParts false (10 ^ 21) 1) (abs x) then floatToString L x lg
-  else formatFloat L x .f (goInt precision)
+  else
+    let value := dropZeroSign x
+    if le f1e21 (abs value) then floatToString L value
+    else
+      match value with
+      | .fin _ m e =>
+        let f := (goInt precision).toNat
+        let digits := fixedLayout (bigIntString (fixedRound (ratOf m e).1 (ratOf m e).2 f)) f
+        if lt value zero then 45 :: digits else digits
+      | _ => floatToString L value          -- unreachable: infinities are >= 1e21
 
 /-- builtinNumberToFixed (builtin_number.go:51) -/
-def toFixed (L : Lib) (x lg : FV) (a : Arg) : Res :=
+def toFixed (L : Lib) (x : FV) (a : Arg) : Res :=
   let precision := toIntegerFloat a.toFloat
   if lt (ofInt 20) precision ∨ lt precision zero then .rangeError
-  else .str (toFixedStr L x lg precision)
+  else .str (toFixedStr L x precision)
 
-/-- builtinNumberToExponential (builtin_number.go:65; upper bound since fix 94625b0) -/
+/-- builtinNumberToExponential (builtin_number.go:70) -/
 def toExponential (L : Lib) (x : FV) (a : Arg) : Res :=
   if isNaN x then .str sNaN
+  else if isInf x then .str (floatToString L x)
   else
     match a with
-    | .undef => .str (formatFloat L x .e (-1))
+    | .undef => .str (formatFloat L (dropZeroSign x) .e (-1))
     | .num v =>
       let precision := toIntegerFloat v
       if lt precision zero ∨ lt (ofInt 20) precision then .rangeError
-      else .str (formatFloat L x .e (goInt precision))
+      else .str (formatFloat L (dropZeroSign x) .e (goInt precision))
 
-/-- builtinNumberToPrecision (builtin_number.go:79; upper bound since fix 94625b0) -/
-def toPrecision (L : Lib) (x lg : FV) (a : Arg) : Res :=
+/-- builtinNumberToPrecision (builtin_number.go:91) -/
+def toPrecision (L : Lib) (x : FV) (a : Arg) : Res :=
   if isNaN x then .str sNaN
   else
     match a with
-    | .undef => .str (numToString L x lg)
+    | .undef => .str (numToString L x)
     | .num v =>
-      let precision := toIntegerFloat v
-      if lt precision one ∨ lt (ofInt 21) precision then .rangeError
-      else .str (formatFloat L x .g (goInt precision))
+      if isInf x then .str (floatToString L x)
+      else
+        let precision := toIntegerFloat v
+        if lt precision one ∨ lt (ofInt 21) precision then .rangeError
+        else .str (formatFloat L (dropZeroSign x) .g (goInt precision))
 
 /-! ### text → number -/
 
-/-- Number(s) / unary plus on a string: parseNumber (value_number.go:14), in Base/ParseNumber -/
-def stringToNumber (s : Str) : FV := OttoVerif.PN.parseNumber s
+/-! #### the regular expression shared by parseNumber and parseFloat
+    `[\+\-]?(?:Infinity|(?:[0-9]+\.?[0-9]*|\.[0-9]+)(?:[eE][\+\-]?[0-9]+)?)` anchored at the start.
+    Go's regexp is leftmost-first; every repetition here is greedy and followed by something that cannot
+    start with what it repeats, so the match found is the longest one. -/
 
-/-- digitValue (builtin.go:45) -/
+def reIsDigit (c : Nat) : Bool := 48 ≤ c ∧ c ≤ 57
+
+/-- `\.?[0-9]*` after a non-empty integer part, or `\.[0-9]+` after an empty one: (fraction digits, rest).
+    With an empty integer part a "." that is not followed by a digit is not consumed. -/
+def reFrac (ipEmpty : Bool) (r1 : Str) : Str × Str :=
+  match r1 with
+  | c :: t =>
+    if c = 46 then
+      let fp := t.takeWhile reIsDigit
+      if ipEmpty ∧ fp.isEmpty then ([], r1) else (fp, t.dropWhile reIsDigit)
+    else ([], r1)
+  | [] => ([], r1)
+
+/-- `[\+\-]?` -/
+def reSign (t : Str) : Str :=
+  match t with
+  | c :: u => if c = 43 ∨ c = 45 then u else t
+  | [] => t
+
+/-- `(?:[eE][\+\-]?[0-9]+)?`: the rest after the optional exponent (taken only when complete) -/
+def reExpRest (r2 : Str) : Str :=
+  match r2 with
+  | c :: t =>
+    if c = 101 ∨ c = 69 then
+      let ed := (reSign t).takeWhile reIsDigit
+      if ed.isEmpty then r2 else (reSign t).dropWhile reIsDigit
+    else r2
+  | [] => r2
+
+/-- the text left after the match of the whole expression at the start of `s`; `none` = no match -/
+def reDecRest (s : Str) : Option Str :=
+  let body := reSign s
+  if sInfinity.isPrefixOf body then some (body.drop 8) else
+  let ip := body.takeWhile reIsDigit
+  let r1 := body.dropWhile reIsDigit
+  let fp := (reFrac ip.isEmpty r1).1
+  let r2 := (reFrac ip.isEmpty r1).2
+  if ip.isEmpty ∧ fp.isEmpty then none else some (reExpRest r2)
+
+def reIsHexDigit (c : Nat) : Bool := (48 ≤ c ∧ c ≤ 57) ∨ (97 ≤ c ∧ c ≤ 102) ∨ (65 ≤ c ∧ c ≤ 70)
+def hexDigitVal (c : Nat) : Nat := if c ≤ 57 then c - 48 else if c ≥ 97 then c - 87 else c - 55
+
+/-- `0[xX][0-9a-fA-F]+` matching the whole string -/
+def isHexLit (v : Str) : Bool :=
+  match v with
+  | 48 :: x :: hs => (x = 120 ∨ x = 88) && !hs.isEmpty && hs.all reIsHexDigit
+  | _ => false
+
+/-- stringToNumberValid (value_number.go:15): `^(?:<decimal>|0[xX][0-9a-fA-F]+)$` -/
+def stringToNumberValid (v : Str) : Bool := reDecRest v == some [] || isHexLit v
+
+/-- `new(big.Float).SetInt(n).Float64()`: the integer n rounded once to nearest-even -/
+def bigToFloat (n : Nat) : FV := ofRatParts false n 1
+
+/-- parseNumber (value_number.go:17) after the Trim -/
+def parseNumberBody (v : Str) : FV :=
+  if v.isEmpty then zero
+  else if !stringToNumberValid v then .nan
+  else if v.contains 46 then OttoVerif.PN.pfOrNaN v
+  else if OttoVerif.PN.startsWith0x v then
+    match GoStd.parseInt v 0 with
+    | .ok i => ofInt i
+    | .range => bigToFloat ((v.drop 2).foldl (fun n c => n * 16 + hexDigitVal c) 0)   -- big.Int.SetString(value, 0)
+    | .syntax => .nan
+  else OttoVerif.PN.pfOrNaN v
+
+/-- Number(s) / unary plus on a string: parseNumber (value_number.go:17) -/
+def stringToNumber (s : Str) : FV := parseNumberBody (trim OttoVerif.PN.wsRunes s)
+
+/-- digitValue (builtin.go:46) -/
 def digitValue (c : Nat) : Nat :=
   if 48 ≤ c ∧ c ≤ 57 then c - 48
   else if 97 ≤ c ∧ c ≤ 122 then c - 97 + 10
   else if 65 ≤ c ∧ c ≤ 90 then c - 65 + 10
   else 36
 
-/-- float accumulation `value = value*base + digit` (builtin.go:114) -/
-def floatAccum (base : Nat) (ds : List Nat) : FV :=
-  ds.foldl (fun v c => add (mul v (ofNat base)) (ofNat (digitValue c))) zero
-
-/-- the sign switch (builtin.go:66) -/
+/-- the sign switch (builtin.go:67) -/
 def signSplit (input : Str) : Bool × Str :=
   match input with
   | [] => (false, input)
   | c :: r => if c = 43 then (false, r) else if c = 45 then (true, r) else (false, input)
 
-/-- the `0x` strip (builtin.go:85) -/
+/-- the `0x` strip (builtin.go:86) -/
 def hexStrip (strip : Bool) (input : Str) (radix : Nat) : Str × Nat :=
   match input with
   | a :: c :: r => if a = 48 ∧ strip ∧ (c = 120 ∨ c = 88) then (r, 16) else (input, radix)
   | _ => (input, radix)
 
-/-- builtinGlobalParseInt (builtin.go:57) after the Trim; `radix` is the result of toInt32(argument 1) -/
+/-- builtinGlobalParseInt (builtin.go:58) after the Trim; `radix` is the result of toInt32(argument 1).
+    Beyond int64 the digits are converted exactly (`big.Int.SetString`) and rounded once; a negative
+    zero result is -0. -/
 def parseIntBody (input : Str) (radix : Int) : FV :=
   if input.isEmpty then .nan else
   let negative := (signSplit input).1
@@ -355,13 +456,15 @@ def parseIntBody (input : Str) (radix : Int) : FV :=
   let input := (hexStrip strip input radix).1
   let input := input.takeWhile (fun c => digitValue c < radix')
   match GoStd.parseInt input radix' with
-  | .ok value => ofInt (if negative then -value else value)      -- int64Value, read as a number
+  | .ok value =>
+    if negative ∧ value = 0 then negZero                       -- float64Value(math.Copysign(0, -1))
+    else ofInt (if negative then -value else value)            -- int64Value, read as a number
   | .range =>
-    let v := floatAccum radix' input
-    if negative then mul v (ofInt (-1)) else v
+    let v := bigToFloat (input.foldl (fun n c => n * radix' + digitValue c) 0)
+    if negative then neg v else v                              -- value *= -1
   | .syntax => .nan
 
-/-- builtinGlobalParseInt (builtin.go:57) -/
+/-- builtinGlobalParseInt (builtin.go:58) -/
 def parseIntCore (s : Str) (radix : Int) : FV :=
   parseIntBody (trim OttoVerif.PN.wsRunes s) radix
 
@@ -371,48 +474,18 @@ def parseInt (s : Str) (radixArg : Arg) : FV :=
     | .num x => C05.toInt32 ⟨OttoVerif.PN.parseNumber⟩ (.f64 x)
   parseIntCore s r
 
-def isSub (p : Str) : Str → Bool
-  | [] => p.isEmpty
-  | c :: r => p.isPrefixOf (c :: r) || isSub p r
-
-def isSuffix (p s : Str) : Bool := p.reverse.isPrefixOf s.reverse
-
-/-- parseFloatMatchBadSpecial `[\+\-]?(?:[Ii]nf$|infinity)` (unanchored) -/
-def matchBadSpecial (s : Str) : Bool :=
-  isSuffix [73, 110, 102] s || isSuffix [105, 110, 102] s || isSub [105, 110, 102, 105, 110, 105, 116, 121] s
-
-/-- parseFloatMatchValid `[0-9eE\+\-\.]|Infinity` (unanchored) -/
-def matchValid (s : Str) : Bool :=
-  s.any (fun c => (48 ≤ c ∧ c ≤ 57) ∨ c = 101 ∨ c = 69 ∨ c = 43 ∨ c = 45 ∨ c = 46) || isSub sInfinity s
-
-/-- Go's ParseFloat succeeds also with ErrRange? No: `err != nil` includes ErrRange.  Returns the
-    value only when err == nil. -/
-def parseFloatNoErr (s : Str) : Option FV :=
-  match GoStd.parseFloat s with
-  | none => none
-  | some v =>
-    -- ErrRange: a finite syntax that overflowed to ±Inf (the `special` spellings are not errors)
-    match GoStd.special s with
-    | some _ => some v
-    | none => if isInf v then none else some v
-
-/-- the retry loop of builtinGlobalParseFloat (builtin.go:149) -/
-def parseFloatLoop (input : Str) : Nat → FV
-  | 0 => .nan
-  | end_ + 1 =>
-    let val := input.take (end_ + 1)
-    if !matchValid val then .nan
-    else match parseFloatNoErr val with
-      | some v => v
-      | none => parseFloatLoop input end_
-
-/-- builtinGlobalParseFloat (builtin.go:140) -/
-def parseFloat (s : Str) : FV :=
-  let input := trim OttoVerif.PN.wsRunes s
-  if matchBadSpecial input then .nan
-  else match parseFloatNoErr input with
+/-- builtinGlobalParseFloat (builtin.go:139) after the Trim: the regexp prefix, converted by
+    strconv.ParseFloat (a range error leaves ±Inf / 0 in the value; a syntax error cannot occur, it would leave 0) -/
+def parseFloatBody (input : Str) : FV :=
+  match reDecRest input with
+  | none => .nan
+  | some rest =>
+    match GoStd.parseFloat (input.take (input.length - rest.length)) with
     | some v => v
-    | none => parseFloatLoop input input.length
+    | none => zero
+
+/-- builtinGlobalParseFloat (builtin.go:139) -/
+def parseFloat (s : Str) : FV := parseFloatBody (trim OttoVerif.PN.wsRunes s)
 
 /-! ### numeric literals (parser/lexer.go) -/
 
@@ -475,22 +548,27 @@ def scanNumber (s : Str) : Option (Str × Str) :=
     | [] => some ([48], [])
   | _ => let (ds, r) := scanMantissa 10 s; scanFloat ds r
 
-/-- parseNumberLiteral (lexer.go:661): `none` = "illegal numeric literal" -/
+/-- `big.Int.SetString(literal, 0)` on the literals the scanner produces: `0x…`, legacy octal `0…`, decimal -/
+def bigIntBase0 (lit : Str) : Option Nat :=
+  match lit with
+  | 48 :: x :: hs =>
+    if x = 120 ∨ x = 88 then
+      (if !hs.isEmpty ∧ hs.all (fun c => lexDigitValue c < 16) then some (hs.foldl (fun n c => n * 16 + lexDigitValue c) 0) else none)
+    else if (x :: hs).all (fun c => lexDigitValue c < 8) then some ((x :: hs).foldl (fun n c => n * 8 + lexDigitValue c) 0)
+    else none
+  | _ => if !lit.isEmpty ∧ lit.all isDecimalDigit then some (lit.foldl (fun n c => n * 10 + (c - 48)) 0) else none
+
+/-- parseNumberLiteral (lexer.go:659): `none` = "illegal numeric literal".  An integer literal beyond
+    int64 is converted exactly and rounded once. -/
 def parseNumberLiteral (lit : Str) : Option FV :=
+  let viaFloat : Option FV := GoStd.parseFloat lit            -- err == nil or ErrRange (±Inf)
   match GoStd.parseInt lit 0 with
   | .ok i => some (ofInt i)
-  | err =>
-    match GoStd.parseFloat lit with
-    | some v => some v                       -- err == nil or ErrRange (±Inf)
-    | none =>
-      match err, lit with
-      | .range, 48 :: x :: hs =>
-        if (x = 88 ∨ x = 120) ∧ !hs.isEmpty then
-          if hs.all (fun c => lexDigitValue c < 16) then
-            some (hs.foldl (fun v c => add (mul v (ofNat 16)) (ofNat (lexDigitValue c))) zero)
-          else none
-        else none
-      | _, _ => none
+  | .range =>
+    match bigIntBase0 lit with
+    | some n => some (bigToFloat n)
+    | none => viaFloat
+  | .syntax => viaFloat
 
 /-- a source text that is exactly one numeric literal token: its value; `none` otherwise
     (ILLEGAL token, leftover text, parse error) -/
